@@ -223,6 +223,13 @@ def leg_io(ns, res, spec):
         ('column-names-wrong-length', 'select a1', [['x', 'y']], None, ['n1'], None),
         ('column-names-wrong-length-b', 'select a1, b1 join b on a1 == b1', [['x', 'y']], [['x', 'z']], ['n1', 'n2'], ['m1']),
     ]
+    # one table with a header, the other without, under every way of writing the join key (by position, by name on either or both sides)
+    for side in ('a-only', 'b-only'):
+        for ka in ('a1', 'a.k', 'a["k"]'):
+            for kb in ('b1', 'b.k2', "b['k2']"):
+                for sel in ('a1, b1', 'a.k, b2', '*'):
+                    scen.append(('header-mismatch-%s:%s==%s:%s' % (side, ka, kb, sel), 'select %s join b on %s == %s' % (sel, ka, kb), [['x', 'y']], [['x', 'z']],
+                                 ['k', 'v'] if side == 'a-only' else None, ['k2', 'v2'] if side == 'b-only' else None))
     for name, qtext, A, B, an, bn in scen:
         o = boundary.run_py(ns, qtext, A, B, an, bn)
         res.evaluations += 1
